@@ -2,6 +2,7 @@ SPECIFICATION RSpec
 CONSTANTS
   Repaired = TRUE
   MaxStyles = 3
+  UseAligns = TRUE
   Depth = 2
   OwnFields <- MCOwn
   BorderFields <- MCBorder
